@@ -191,6 +191,55 @@ pub fn run(ctx: &Ctx) -> Report {
         .reduce(Acc::default, |a, b| a.merge(b));
     let acc = acc.merge(acc_big);
     let _ = n_big;
+    // every (class, method) pair x four small bodies x {as is, header length +-4, last byte cut, one
+    // excess byte, padding byte set}: acceptance must not depend on what kind of message it is
+    let acc_cm = (0..16384u32)
+        .into_par_iter()
+        .fold(Acc::default, |mut acc, cm| {
+            let (class, method) = ((cm >> 12) as u8, (cm & 0xFFF) as u16);
+            let tidv: u128 = 0x4142_4344_4546_4748_494A_4B4C;
+            for body in 0..4u8 {
+                let mut b = wire::encode_header(class, method, tidv, 0);
+                match body {
+                    0 => {}
+                    1 => wire::append_raw(&mut b, 0x0013, &[1, 2, 3, 4, 5]),
+                    2 => {
+                        wire::append_raw(&mut b, 0x8022, b"x");
+                        wire::append_mi(&mut b, b"k");
+                        wire::append_fp(&mut b);
+                    }
+                    _ => {
+                        wire::append_raw(&mut b, 0x0006, b"us");
+                        wire::append_raw(&mut b, 0x0013, &[]);
+                    }
+                }
+                let mut variants = vec![b.clone()];
+                let l = wire::be16(&b[2..4]);
+                for nl in [l + 4, l.wrapping_sub(4)] {
+                    if nl < 0x1_0000 {
+                        let mut x = b.clone();
+                        wire::set_len(&mut x, nl);
+                        variants.push(x);
+                    }
+                }
+                if b.len() > 20 {
+                    variants.push(b[..b.len() - 1].to_vec());
+                    let mut x = b.clone();
+                    let last = x.len() - 1;
+                    x[last] ^= 0x01;
+                    variants.push(x);
+                }
+                let mut x = b.clone();
+                x.push(0);
+                variants.push(x);
+                for v in variants {
+                    judge_guarded(judge, &Case::new("parse", v).text(&["class-method"]), &mut acc);
+                }
+            }
+            acc
+        })
+        .reduce(Acc::default, |a, b| a.merge(b));
+    let acc = acc.merge(acc_cm);
     // repeated attributes of every built-in type: two and three occurrences whose values are each
     // either a valid value, another valid value, or a value the typed decoder refuses, in every order
     // (with and without a FINGERPRINT): every lookup, raw and typed, answers from the first occurrence
@@ -229,7 +278,7 @@ pub fn run(ctx: &Ctx) -> Report {
     Report {
         acc,
         exhaustive: true,
-        rule: "all attribute skeletons over {OPT,SW x len 0/1/3/4, MI, MI256, FP ok, FP bad} to the stated depth x 4 header variants (one per class); on each: every cut point, header-length perturbation, excess variant, per-attribute length perturbation, top bits, every cookie bit, non-zero padding; on skeletons of <= 3 attributes (thorough 4) also every value of every type/length byte of the header and of each attribute header and every single-bit flip of buffers up to 64 bytes; plus every 16-bit attribute type (value length 0 and 5) at each position of 10 templates around MI / MI256 / FP; large messages (one big attribute + every tail of <= 2 sealing attributes, ending at every multiple of 4 in 65480..=65552 and around 256 / 4096 / 32768) and values that look like sealing-attribute headers, each with header-length perturbations and cuts; messages with two / three occurrences of each built-in type (valid, other valid, refused value, every order); typed lookups compared with the typed decoding of the first occurrence on every accepted message; distinct_nontrivial counts fault-free skeleton buffers".into(),
+        rule: "all attribute skeletons over {OPT,SW x len 0/1/3/4, MI, MI256, FP ok, FP bad} to the stated depth x 4 header variants (one per class); on each: every cut point, header-length perturbation, excess variant, per-attribute length perturbation, top bits, every cookie bit, non-zero padding; on skeletons of <= 3 attributes (thorough 4) also every value of every type/length byte of the header and of each attribute header and every single-bit flip of buffers up to 64 bytes; plus every 16-bit attribute type (value length 0 and 5) at each position of 10 templates around MI / MI256 / FP; large messages (one big attribute + every tail of <= 2 sealing attributes, ending at every multiple of 4 in 65480..=65552 and around 256 / 4096 / 32768) and values that look like sealing-attribute headers, each with header-length perturbations and cuts; all 16 384 (class, method) pairs x four small bodies x six variants; messages with two / three occurrences of each built-in type (valid, other valid, refused value, every order); typed lookups compared with the typed decoding of the first occurrence on every accepted message; distinct_nontrivial counts fault-free skeleton buffers".into(),
         bounds: json!({"skeletons": n_sk, "full_alphabet_depth": n_full, "small_alphabet_depth": n_small, "header_variants": 4, "faults": "single"}),
         assumptions: vec!["buffers outside the grammar alphabets and with two or more independent faults are not explored".into()],
         ..Default::default()
